@@ -29,9 +29,19 @@ pub enum Algo {
     Fifo,
     /// high priority pool ratio in percent
     Lru { ratio_pct: u8 },
-    Lfu { window_pct: u8, protected_pct: u8 },
+    Lfu {
+        window_pct: u8,
+        protected_pct: u8,
+        /// count-min sketch eps in 1/1000 (foyer default 0.001 => 1)
+        #[serde(default = "default_eps_milli")]
+        eps_milli: u16,
+    },
     S3Fifo { small_pct: u8, ghost_pct: u8, thr: u8 },
     Sieve,
+}
+
+fn default_eps_milli() -> u16 {
+    1
 }
 
 impl Algo {
@@ -59,10 +69,11 @@ impl Algo {
             Algo::Lfu {
                 window_pct,
                 protected_pct,
+                eps_milli,
             } => LfuConfig {
                 window_capacity_ratio: *window_pct as f64 / 100.0,
                 protected_capacity_ratio: *protected_pct as f64 / 100.0,
-                cmsketch_eps: 0.001,
+                cmsketch_eps: *eps_milli as f64 / 1000.0,
                 cmsketch_confidence: 0.9,
             }
             .into(),
@@ -87,6 +98,7 @@ impl Algo {
             Algo::Lfu {
                 window_pct: 10,
                 protected_pct: 80,
+                eps_milli: 1,
             },
             Algo::S3Fifo {
                 small_pct: 10,
